@@ -640,6 +640,10 @@ func c13Run(c *core.C) {
 				c.Violate("reset-leaks/outcome", fmt.Sprintf("round %d: reused authorizer says %s, a fresh one says %s", n, got.Class, want.Class), desc)
 			} else if core.JSON(got.Queries) != core.JSON(want.Queries) {
 				c.Violate("reset-leaks/query-results", fmt.Sprintf("round %d: query results of the reused authorizer differ from a fresh one", n), desc)
+			} else if got.Err != want.Err {
+				// what the caller is told (which checks failed, printed with which strings) is part
+				// of the outcome: after a Reset it must not be worded with an earlier request's strings
+				c.Violate("reset-leaks/error-text", fmt.Sprintf("round %d: the reused authorizer reports %q, a fresh one %q", n, got.Err, want.Err), desc)
 			}
 			// a leak that sits outside the authorizer (process-wide state written by an earlier
 			// round) reaches the fresh authorizer as well: the outcome is also held against the
@@ -673,8 +677,72 @@ func c13Run(c *core.C) {
 
 // ---- C18 ---------------------------------------------------------------------------------
 
+// c18RefusalAfterFailure: an evaluation that ENDS IN AN ERROR is an evaluation too - the token's
+// facts and rules have been loaded into the authorizer by then. Authorize (or Query) fails while
+// the authority block, a later block or the authorizer's own rules are applied (division by
+// zero, fact limit); saving must be refused afterwards, as after a successful evaluation.
+func c18RefusalAfterFailure(c *core.C) {
+	r := c.R
+	x := ast.Var("x")
+	boom := ast.Rule{Head: ast.P("share", x), Body: []ast.Pred{ast.P("quota", x)}, Exprs: []ast.Expr{{ast.OV(x), ast.OV(ast.Int(0)), ast.OB(int(ast.BDiv)), ast.OV(ast.Int(1)), ast.OB(int(ast.BEqual))}}}
+	where := []string{"authority block", "later block", "authorizer rule (Authorize)", "authorizer rule (Query)", "fact limit in the authority block"}[c.Idx%5]
+	blocks := []ast.Block{{Facts: []ast.Pred{ast.P("secret", ast.Str(fmt.Sprintf("s3cr3t-%d", c.Idx))), ast.P("quota", ast.Int(10))}}}
+	content := ast.AuthContent{Policies: []ast.Policy{allowAll}}
+	opt := lib.BigLimits()
+	switch c.Idx % 5 {
+	case 0:
+		blocks[0].Rules = []ast.Rule{boom}
+	case 1:
+		blocks = append(blocks, ast.Block{Facts: []ast.Pred{ast.P("note", ast.Int(int64(r.Intn(9))))}, Rules: []ast.Rule{boom}})
+	case 2, 3:
+		content.Rules = []ast.Rule{boom}
+		content.Facts = []ast.Pred{ast.P("quota", ast.Int(7))}
+	default:
+		blocks[0].Facts = append(blocks[0].Facts, factsP(8)...)
+		blocks[0].Rules = []ast.Rule{{Head: ast.P("pair", vX, vY), Body: []ast.Pred{ast.P("p", vX), ast.P("p", vY)}}}
+		opt = biscuit.WithWorldOptions(datalog.WithMaxFacts(20), datalog.WithMaxIterations(1000), datalog.WithMaxDuration(60*time.Second))
+	}
+	tok, err := buildScenarioToken(c.Seed, fmt.Sprintf("c18f-%d", c.Idx), blocks)
+	if err != nil {
+		c.Violate("build-refused", err.Error(), nil)
+		return
+	}
+	c.Eval(1)
+	var evalErr, saveErr error
+	var saved []byte
+	pi := lib.Try(func() {
+		a, err := tok.B.AuthorizerFor(biscuit.WithSingularRootPublicKey(tok.Pub), opt)
+		if err != nil {
+			evalErr = err
+			return
+		}
+		lib.AddContent(a, content)
+		if c.Idx%5 == 3 {
+			_, evalErr = a.Query(ast.Rule{Head: ast.P("out", x), Body: []ast.Pred{ast.P("share", x)}}.Lib())
+		} else {
+			evalErr = a.Authorize()
+		}
+		saved, saveErr = a.SerializePolicies()
+	})
+	desc := map[string]any{"failure_in": where, "token": gen.Texts(tok.Blocks), "evaluation_error": fmt.Sprint(evalErr), "save_error": fmt.Sprint(saveErr), "saved_bytes": len(saved)}
+	if pi != nil {
+		c.Violate("snapshot-panic/"+pi.Site, pi.Msg, desc)
+		return
+	}
+	if evalErr == nil {
+		c.Violate("refusal-scenario-control", "the evaluation was expected to fail", desc)
+		return
+	}
+	if saveErr == nil {
+		c.Violate("snapshot-after-failed-evaluation/"+where, fmt.Sprintf("the evaluation failed (%v); SerializePolicies then succeeded (%d bytes)", evalErr, len(saved)), desc)
+	}
+	c.Count("refusal_after_failed_evaluation", 1)
+	c.NT("refusal-after-failure/" + where)
+}
+
 func c18Run(c *core.C) {
 	r := c.R
+	c18RefusalAfterFailure(c)
 	if (c.Idx+c.Idx/16)%4 == 3 { // rotate so that every worker stride gets some of the heavy malformed cases
 		c18Malformed(c)
 		return
@@ -867,7 +935,7 @@ func c18Malformed(c *core.C) {
 		v := gen.Pick(r, []uint32{3, 3, 3, 0, 2, 4})
 		p.Version = &v
 		for k := 0; k < 1+r.Intn(2); k++ {
-			pol := wire.Policy{Kind: gen.Pick(r, []uint64{0, 1, 1, 0, 2, 99}), NoKind: r.Intn(8) == 0}
+			pol := wire.Policy{Kind: gen.Pick(r, []uint64{0, 1, 1, 0, 2, 99, 1 << 31, ^uint64(0), ^uint64(1), 0xFFFFFFFF80000000, 1<<31 - 1}), NoKind: r.Intn(8) == 0}
 			if len(wb.Checks) > 0 {
 				pol.Queries = wb.Checks[0]
 			} else {
